@@ -228,7 +228,8 @@ class FpEval:
     """image of an exact SymPy number expression under the ring homomorphism
     Z[zeta_M, 1/d] -> F_P, zeta_M |-> zeta(M, 1).  Symbols are looked up in `env` (integers for k, N, n;
     F_P elements for others).  A product with an exactly-zero factor is zero (this is how Lcapy's
-    `(1 - UnitImpulse(k - k0)) * (expression singular at k0)` results are meant; counted)."""
+    `(1 - UnitImpulse(k - k0)) * (expression singular at k0)` results are meant; counted): only when the zero factor
+    is such a delta / Piecewise factor; any other 0 * (1/0) is a pole (ZeroDivisionError)."""
 
     def __init__(self, Lc, env, fpenv=None):
         self.L, self.S, self.env, self.fpenv = Lc, Lc.S, env, fpenv or {}
@@ -261,14 +262,19 @@ class FpEval:
         if e.is_Add:
             return sum(self.ev(a) for a in e.args) % FP
         if e.is_Mul:
-            vals, err = [], None
+            vals, err, zero_by_delta = [], None, False
             for a in e.args:
                 try:
-                    vals.append(self.ev(a))
+                    v = self.ev(a)
+                    vals.append(v)
+                    if v == 0 and (a.has(self.L.UI) or a.has(S.Piecewise)):
+                        zero_by_delta = True
                 except (ZeroDivisionError, Unsupported) as ex:
                     err = ex
             if any(v == 0 for v in vals):
                 if err is not None:
+                    if not zero_by_delta and isinstance(err, ZeroDivisionError):
+                        raise ZeroDivisionError          # a genuine 0/0: no (1 - delta) factor gives the product a value
                     self.zero_times_singular += 1
                 return 0
             if err is not None:
@@ -453,7 +459,7 @@ def run(chk, replay=None):
     QUICK[0] = quick
     gen = replay is None                      # --replay <file>: only the recorded case is re-run
     NS = 12 if quick else 20                     # samples checked per sequence
-    budget = {'zt': 240 if quick else 2000, 'izt': 80 if quick else 800, 'resp': 120 if quick else 1200}
+    budget = {'zt': 185 if quick else 500, 'izt': 80 if quick else 400, 'resp': 120 if quick else 1200}
     chk.coverage['rule'] = ('zt: a case = a sum of 1-3 terms coef*n^p*a^n*base (base: impulse/step with integer delay incl. advances, '
                             'constant, cos/sin(b n + c) with Pythagorean cos/sin values) compared at 2 (quick) / 4 (thorough) random rational z and '
                             'coefficient-wise for n <= %d, plus IZT(ZT) samples; izt/filt: a case = (b, a) with a from rational simple/repeated poles; '
@@ -477,7 +483,12 @@ def run(chk, replay=None):
     def newcase():
         state['case'] += 1
 
-    CASE_LIMIT = 45 if chk.tier == 'quick' else 150
+    CASE_LIMIT = 45 if chk.tier == 'quick' else 90
+
+    def ev_fp(expr, env):
+        """image in F_P of Lcapy's expression; raises ZeroDivisionError at a pole AND at a genuine 0/0 (a product of an exact zero and a
+        singular factor only has the value 0 where a (1 - UnitImpulse) factor or a Piecewise says so)"""
+        return FpEval(Lc, env).ev(expr)
 
     def guarded(fn, *args, **kw):
         """SymPy calls occasionally do not return: a case that exceeds the limit is counted, never reported"""
@@ -698,6 +709,51 @@ def run(chk, replay=None):
                         'filter rebuilt from the difference equation describes a different system')
         except Exception as ex:   # noqa
             chk.count('filt.lcapy-error', 'de:' + type(ex).__name__)
+
+
+    # ------------------------------------------------------------------ z-transform with no rule: the reported unevaluated sum must be the
+    # defining sum.  Generic oracle: x[m] from the input expression, Lean forms the partial defining sum  sum_{m<K} x[m] z^-m.
+    def ztsum_case(e, fam):
+        newcase()
+        key = ('ztsum', str(e))
+        chk.count('zt.fallback', fam)
+        try:
+            Xs = Lc.lcapy.nexpr(e).ZT().sympy
+        except Exception as ex:   # noqa
+            chk.count('zt.lcapy-error', 'fallback:' + type(ex).__name__)
+            chk.case(key, False)
+            return
+        sums = list(Xs.atoms(S.Sum))
+        if len(sums) != 1 or (Xs / sums[0]).has(Lc.z) or len(sums[0].args) != 2:
+            chk.count('degenerate', 'zt-fallback-closed-form-or-unparsed')
+            chk.case(key, False)
+            return
+        chk.case(key, True)
+        sm = sums[0]
+        (mvar, m0, m1) = sm.args[1]
+        K = 5
+        z0 = rnd_frac(rng, -5, 5, 3)
+        try:
+            if m0 != 0 or m1 != S.oo:
+                raise ValueError('limits %s..%s' % (m0, m1))
+            xv = [Lc.tofrac(e.subs(Lc.n, i)) for i in range(K)]
+            part = sum((Lc.tofrac(S.cancel((Xs / sm) * sm.args[0].subs({mvar: i, Lc.z: Lc.rat(z0)}))) for i in range(K)), Fraction(0))
+        except Exception as ex:   # noqa
+            chk.count('degenerate', 'zt-fallback-unevaluable:' + type(ex).__name__)
+            return
+        want = Fraction(drv.ask1('seq.ztspec %s 0 %s' % (fstr(z0), lst(xv))).split()[1])
+        if part != want:
+            cex({'kind': 'zt', 'advance': False, 'fallback_sum': True},
+                {'input': {'expr': str(e), 'z': fstr(z0), 'terms': K}, 'lcapy': str(Xs), 'lcapy_partial_sum': fstr(part),
+                 'spec': 'the first %d terms of the reported sum are sum_{m<%d} x[m] z^-m = %s' % (K, K, fstr(want))},
+                'the unevaluated z-transform is not the defining unilateral sum')
+
+    stream('ztsum')
+    if gen and cur[0]:
+        n_ = Lc.n
+        for e_, fam in [(1 / (n_ + 1), 'rational in n'), (Lc.rat(Fraction(1, 2)) ** n_ / (n_ + 2), 'rational in n times a^n'),
+                        (n_ / (n_ ** 2 + 1), 'rational in n')][:(2 if quick else 3)]:
+            guarded(ztsum_case, e_, fam)
 
     stream('izt')
     for i in (range(budget['izt']) if (gen and cur[0]) else []):
@@ -987,10 +1043,7 @@ def run(chk, replay=None):
                 chk.count('degenerate', 'dft-unevaluable:' + str(ex)[:30])
                 return
             if fe.zero_times_singular:
-                if Xs.has(Lc.UI) or Xs.has(S.Piecewise):
-                    chk.count('dft.delta-convention', 'needed')
-                else:
-                    lv = 'pole'            # a genuine 0/0 of the closed form, no (1 - delta) factor that defines the value
+                chk.count('dft.delta-convention', 'needed')
             Xvals.append(lv)
             sv = int(drv.ask1('dft.spec %d %d | %s' % (N, q, toks)))
             mv = None
@@ -1057,6 +1110,12 @@ def run(chk, replay=None):
         if mode == 3:                  # geometric base on the unit circle (a = -1)
             terms[0].a = Fraction(-1)
         guarded(dft_case, terms, N, symbolic, bins)
+        if all(b_ is None for b_ in bins) and i % 3 == 0:
+            # the same expression again with another length (and numeric after symbolic): a result must not depend on the
+            # transforms taken before it in the same process (the transformers keep a result cache keyed by expression and N)
+            N2 = rng.choice([m_ for m_ in range(2, 13) if m_ != N])
+            chk.count('dft.same-expression-other-N', 'numeric after ' + ('symbolic' if symbolic else 'numeric'))
+            guarded(dft_case, terms, N2, False, bins)
 
     # ------------------------------------------------------------------ DTFT stream
     # x[n] = sum of  coef * n^p * a^n * gate[n] * trig(pi rb n + pi rc)  with gate = delta[n-d] (finite support: the
@@ -1127,7 +1186,7 @@ def run(chk, replay=None):
         for r in rng.sample(ANG, 3 if quick else 5):
             env = {s_: S.pi * Lc.rat(r) for s_ in Osyms}
             try:
-                lv = FpEval(Lc, env).ev(Xs)
+                lv = ev_fp(Xs, env)
             except ZeroDivisionError:
                 chk.count('degenerate', 'dtft-pole-hit')
                 continue
@@ -1340,6 +1399,10 @@ def run(chk, replay=None):
             q_ = S.exp(-I_ * 2 * pi_ * Lc.k / N)
             num = rng.choice([S.Integer(1), q_, 1 + 2 * q_]) if pw > 1 else S.Integer(1)
             guarded(idft_generic_case, num / (1 - R(a_) * q_) ** pw, N, 'ratfun pole order %d' % pw)
+        # the same X[k] inverted with two lengths in a row (N and 2N: exp(-j 2 pi k / N) = exp(-j 2 pi k / 2N)**2)
+        Xsame = 1 / (1 - R(Fraction(1, 2)) * S.exp(-I_ * 2 * pi_ * Lc.k / 4))
+        guarded(idft_generic_case, Xsame, 4, 'same X, N then 2N')
+        guarded(idft_generic_case, Xsame, 8, 'same X, N then 2N')
         # I2 round trips through the second case of termXk (pole on the unit circle, (1 - delta) factor), all table orders
         for (pw, d, N) in pick([(1, 0, 6), (1, 2, 6), (2, 0, 5), (2, 3, 7), (3, 0, 6), (3, 2, 5), (4, 0, 5), (5, 0, 4)], 4):
             guarded(dft_generic_case, n_ ** pw * (Lc.US(n_ - d) if d else 1), N, False, 'n^p roundtrip', flags={'ramp_step_delay_ge2': d >= 2})
@@ -1372,13 +1435,17 @@ def run(chk, replay=None):
             Z = x.ZT()
             zn = [int(v) for v in Z.n]
             zv = [Lc.tofrac(S.cancel(v.sympy.subs(Lc.z, Lc.rat(z0)))) for v in Z.vals]
+        except Exception as ex:   # noqa
+            chk.count('seqorg.lcapy-error', 'ZT:' + type(ex).__name__)
+            chk.case(key, False)
+            return
+        try:
             xb = Z.IZT()
             bn = [int(v) for v in xb.n]
             bv = [Lc.tofrac(S.cancel(v.sympy.subs(Lc.z, Lc.rat(z0)))) for v in xb.vals]
-        except Exception as ex:   # noqa
-            chk.count('seqorg.lcapy-error', type(ex).__name__)
-            chk.case(key, False)
-            return
+        except Exception as ex:   # noqa   (e.g. the n-domain constructor refuses an element that still depends on z)
+            chk.count('seqorg.lcapy-error', 'IZT:' + type(ex).__name__)
+            xb = None
         chk.case(key, True)
         chk.sample({'stream': 'seqorg', 'vals': lst(vals), 'n0': n0, 'lcapy_ZT': str(Z)[:120], 'lcapy_ZT_n': zn})
         # correspondence: the element list and its first index (model selected by the regenerated flags)
@@ -1386,10 +1453,11 @@ def run(chk, replay=None):
         chk.coverage['correspondence']['compared'] += 1
         if (zn[0] if zn else 0, lst(zv)) != (int(m1[0]), m1[1]):
             disagree('seq.ZT', {'vals': lst(vals), 'n0': n0, 'z': fstr(z0), 'lcapy': [zn[:1], lst(zv)], 'model': m1})
-        m2 = drv.ask1('seq.iztzt %s %d %s' % (fstr(z0), n0, lst(vals))).split()
-        chk.coverage['correspondence']['compared'] += 1
-        if (bn[0] if bn else 0, lst(bv)) != (int(m2[0]), m2[1]):
-            disagree('seq.IZT', {'vals': lst(vals), 'n0': n0, 'z': fstr(z0), 'lcapy': [bn[:1], lst(bv)], 'model': m2})
+        if xb is not None:
+            m2 = drv.ask1('seq.iztzt %s %d %s' % (fstr(z0), n0, lst(vals))).split()
+            chk.coverage['correspondence']['compared'] += 1
+            if (bn[0] if bn else 0, lst(bv)) != (int(m2[0]), m2[1]):
+                disagree('seq.IZT', {'vals': lst(vals), 'n0': n0, 'z': fstr(z0), 'lcapy': [bn[:1], lst(bv)], 'model': m2})
         # oracle 1: the terms sum to the defining sum of the sequence (unilateral = bilateral unless n0 < 0)
         bi, uni = [Fraction(v) for v in drv.ask1('seq.ztspec %s %d %s' % (fstr(z0), n0, lst(vals))).split()]
         tot = sum(zv, Fraction(0))
@@ -1402,7 +1470,7 @@ def run(chk, replay=None):
                      'spec': 'sum of the z-transform terms = sum_n x[n] z^-n: unilateral %s, bilateral %s' % (fstr(uni), fstr(bi))},
                 'z-transform of a sequence with an origin is not the defining sum')
         # oracle 2: IZT(ZT(x)) = x (same indices, same values)
-        if (bn, bv) != (list(range(n0, n0 + len(vals))), list(vals)):
+        if xb is not None and (bn, bv) != (list(range(n0, n0 + len(vals))), list(vals)):
             cex({'kind': 'seq-izt-zt', 'origin': org},
                 {'input': {'vals': lst(vals), 'n0': n0}, 'lcapy': {'n': bn, 'vals': lst(bv)}, 'spec': 'IZT(ZT(x)) = x with the same indices'},
                 'sequence IZT(ZT(x)) does not return the sequence')
@@ -1472,7 +1540,7 @@ def run(chk, replay=None):
         for r in ANG:
             env = {s_: S.pi * Lc.rat(r) for s_ in Osyms}
             try:
-                lv = FpEval(Lc, env).ev(Xs)
+                lv = ev_fp(Xs, env)
             except ZeroDivisionError:
                 chk.count('degenerate', 'dtft-pole-hit')
                 continue
@@ -1505,7 +1573,7 @@ def run(chk, replay=None):
             guarded(dtft_generic_case, e, d, d, 'exp(j a n) * impulse')
 
     stream('seqorg')
-    for i in (range(32 if quick else 240) if (gen and cur[0]) else []):
+    for i in (range(32 if quick else 120) if (gen and cur[0]) else []):
         vals = [rnd_frac(rng, -4, 4, 2, nonzero=(j == 0)) for j in range(rng.randint(1, 5))]
         guarded(seqorg_case, vals, [0, 0, 1, 2, 3, -1, -2, rng.randint(-4, 4)][i % 8])
 
@@ -1586,7 +1654,7 @@ def run(chk, replay=None):
         for r in rng.sample(ANG, 2 if quick else 4):
             env = {s_: S.pi * Lc.rat(r) for s_ in Osyms}
             try:
-                lv = FpEval(Lc, env).ev(reg)
+                lv = ev_fp(reg, env)
             except ZeroDivisionError:
                 chk.count('degenerate', 'dtft-pole-hit')
                 continue
@@ -1646,7 +1714,11 @@ def run(chk, replay=None):
                 terms.append((rnd_frac(rng), rng.choice([0, 0, 1, 2]) if trig is None else 0, Fraction(1), 'imp', rng.randint(-4, 5), trig, rb, rc))
             elif mode in (2, 3):   # geometric, |a| < 1, delayed or advanced step
                 a = Fraction(rng.choice([1, -1, 2, -2]), rng.choice([3, 4, 5]))
-                terms.append((rnd_frac(rng), rng.choice([0, 0, 1, 2]), a, 'step', rng.randint(-2, 3), trig, rb, rc))
+                pw = rng.choice([0, 0, 1, 2])
+                if trig is not None:
+                    # n^p a^n sin(b n + c) u[n]: SymPy's simplification of the p-th derivative takes minutes (counted as case-timeout)
+                    pw = 0 if (quick or rng.random() < 0.9) else min(pw, 1)
+                terms.append((rnd_frac(rng), pw, a, 'step', rng.randint(-2, 3), trig, rb, rc))
             else:                  # not summable: plain / modulated steps -> Dirac combs (formal pairs)
                 terms.append((rnd_frac(rng), 0, Fraction(1), 'step', rng.randint(-2, 3), trig, rb, rc))
         guarded(dtft2_case, terms)
@@ -1690,6 +1762,15 @@ def run(chk, replay=None):
             chk.coverage['correspondence']['compared'] += 1
             if want != lv:
                 disagree('discretize', {'H': str(Hs), 'method': method, 'dt': fstr(d0), 'z': fstr(z0), 'lcapy': fstr(lv), 'model': fstr(want)})
+            # oracle: H at the documented map s(z) (evaluated directly, not through the coefficient-level substitution of the model)
+            sv = drv.ask1('disc.spec %s %s %s %s %s %s' % (kind, fstr(al), fstr(d0), fstr(z0), lst(num), lst(den)))
+            if sv != 'undef' and Fraction(sv) * (d0 if kind == 'simpson' else 1) != lv:
+                cex({'kind': 'discretize', 'method': method},
+                    {'input': {'H': str(Hs), 'num': lst(num), 'den': lst(den), 'method': method, 'alpha': fstr(al), 'dt': fstr(d0), 'z': fstr(z0)},
+                     'lcapy': {'Hz': str(Hz), 'value': fstr(lv)},
+                     'spec': 'H(s) at the documented map s(z) for this method (times Delta_t for simpson of an undefined-quantity expression): %s' % sv},
+                    'discretize does not substitute the documented map')
+                return
 
     def ii_case(r, pint, method):
         """H(s) = r / (s - p), p an integer: impulse invariance / matched-Z give  Delta r / (1 - e^{p Delta} / z)"""
@@ -1736,16 +1817,20 @@ def run(chk, replay=None):
             chk.count('idtft.lcapy-error', type(ex).__name__)
             chk.case(key, False)
             return
-        if xs.has(S.Integral) or xs.has(S.Sum):
+        if xs.has(S.Integral) or (xs.has(S.Sum) and not xs.has(S.DiracDelta)):
             chk.count('degenerate', 'idtft-no-closed-form')
             chk.case(key, False)
             return
         try:
             want = [FpEval(Lc, {Lc.n: S.Integer(i)}).ev(e) for i in range(lo, hi + 1)]
-            got = [FpEval(Lc, {}).ev(S.simplify(xs.subs(Lc.n, i))) for i in range(lo, hi + 1)]
+            if xs.has(S.DiracDelta):
+                # a sequence cannot contain a Dirac delta of the frequency variable: the inversion did not happen
+                got = 'not a sequence: contains DiracDelta'
+            else:
+                got = [FpEval(Lc, {}).ev(S.simplify(xs.subs(Lc.n, i))) for i in range(lo, hi + 1)]
         except (Unsupported, ZeroDivisionError) as ex:
             if xs.free_symbols - {Lc.n}:
-                got = 'free symbols %s' % sorted(str(v) for v in xs.free_symbols - {Lc.n})
+                got = 'not a sequence: free symbols %s' % sorted(str(v) for v in xs.free_symbols - {Lc.n})
             else:
                 chk.count('degenerate', 'idtft-unevaluable:' + str(ex)[:30])
                 chk.case(key, False)
@@ -1764,9 +1849,7 @@ def run(chk, replay=None):
         doms = ['f', 'Omega', 'F']
         for i in range(9 if quick else 60):
             dom = doms[i % 3]
-            kind = i % 3 if quick else rng.randint(0, 2)
-            if i % 9 >= 6:
-                kind = (kind + 1) % 3
+            kind = (i // 3) % 3                      # every (frequency variable, family) pair
             if kind == 0:       # finite support: weighted, delayed and advanced impulses
                 e = sum((Lc.rat(rnd_frac(rng)) * Lc.UI(n_ - d) for d in rng.sample(range(-3, 5), rng.randint(1, 3))), S.Integer(0))
                 guarded(idtft_case, e, dom, -4, 6, 'impulses', False)
